@@ -236,7 +236,7 @@ def direct_oracle(cfg, rs, tier, n_tests, want_sampling=True):
     marginal consistency, mpe/sample shape + evidence."""
     import torch
     n = cfg.n; m = cfg.m
-    stats = dict(mass=0, marg=0, mpe=0, sample_rows=0, gof=0, state_dict_twins=0, half_leaf_models=0, gauss_sample_moments=0)
+    stats = dict(mass=0, marg=0, mpe=0, sample_rows=0, gof=0, state_dict_twins=0, half_leaf_models=0, gauss_sample_moments=0, dropout_models=0)
     with torch.no_grad():
         ll0 = m(torch.full((1, n), float("nan")))
     if not np.all(np.abs(ll0.numpy()) < 1e-4):
@@ -308,6 +308,33 @@ def direct_oracle(cfg, rs, tier, n_tests, want_sampling=True):
         if bad:
             bad["input"] = x[0].tolist(); bad["output"] = oh[0].tolist()
             return bad, stats
+    # the dropout options (and uniform_loc for Gaussian leaves), evaluation mode: dropout is a training device, so the model is
+    # still a normalised distribution — all-missing input scores 0, Bernoulli outputs sum to one over all inputs, two forward
+    # passes agree, and a history forward; mpe; sample; forward leaves the model in evaluation mode with the same outputs
+    from deeprob.spn.models.ratspn import GaussianRatSpn as _GR, BernoulliRatSpn as _BR
+    torch.manual_seed(cfg.seed + 31)
+    kw = dict(out_classes=cfg.classes, rg_depth=cfg.d, rg_repetitions=cfg.reps, rg_batch=cfg.batch, rg_sum=cfg.sums,
+              in_dropout=0.3, sum_dropout=0.3, random_state=np.random.RandomState(cfg.seed + 7))
+    dm = _BR(n, **kw) if cfg.kind == "bern" else _GR(n, uniform_loc=(-1.0, 1.0), **kw)
+    dm.eval()
+    xd = torch.tensor(rs.randint(0, 2, size=(5, n)).astype(np.float32)) if cfg.kind == "bern" else torch.tensor(rs.uniform(-1.5, 1.5, size=(5, n)).astype(np.float32))
+    xh = xd.clone(); xh[torch.tensor(rs.rand(5, n) < 0.4)] = float("nan")
+    with torch.no_grad():
+        a0 = dm(xd).double().numpy(); a1 = dm(xd).double().numpy(); n0 = dm(torch.full((1, n), float("nan"))).double().numpy()
+        tot_d = None
+        if cfg.kind == "bern" and n <= 10:
+            allr = torch.tensor(np.array(list(itertools.product([0.0, 1.0], repeat=n)), dtype=np.float32))
+            tot_d = np.exp(dm(allr).double().numpy()).sum(axis=0)
+        yk = torch.zeros(5, dtype=torch.long)
+        dm.mpe(xh.clone(), y=yk); dm.sample(3, y=torch.zeros(3, dtype=torch.long))
+        a2 = dm(xd).double().numpy()
+    stats["dropout_models"] = stats.get("dropout_models", 0) + 1
+    if (not np.all(np.abs(n0) < 1e-4) or not np.allclose(a0, a1, rtol=1e-6, atol=1e-6) or not np.allclose(a0, a2, rtol=1e-6, atol=1e-6)
+            or dm.training or any(mod.training for mod in dm.modules()) or (tot_d is not None and not np.all(np.abs(tot_d - 1) < 1e-4))):
+        return dict(what="model built with the dropout options, in evaluation mode: not a normalised distribution / outputs change between calls "
+                         "or after mpe / sample / a sub-module left evaluation mode",
+                    all_missing=n0.tolist(), first=a0.tolist(), second=a1.tolist(), after_mpe_and_sample=a2.tolist(),
+                    total_mass=None if tot_d is None else tot_d.tolist(), still_eval=bool(not dm.training)), stats
     # a model reached through a checkpoint: a twin with the same architecture but another region graph, after
     # load_state_dict, IS the original model (same distribution), so it must answer every query identically
     bad = twin_after_load(cfg, x, ys, out)
@@ -490,7 +517,7 @@ def main(tier, seed, replay=None):
     n_gof = sum(c.classes for c in cfgs if c.kind == "bern" and c.n <= 6)
     dist = dict(features={}, depth={}, padded=0, kinds={}, nan_cells={}, exhaustive_configs=0)
     built = []
-    oracle_stats = dict(mass=0, marg=0, mpe=0, sample_rows=0, gof=0, state_dict_twins=0, half_leaf_models=0, gauss_sample_moments=0)
+    oracle_stats = dict(mass=0, marg=0, mpe=0, sample_rows=0, gof=0, state_dict_twins=0, half_leaf_models=0, gauss_sample_moments=0, dropout_models=0)
     n_viol = 0
     for cfg in cfgs:
         try:
